@@ -579,7 +579,11 @@ func (x *Exec) evalLoc(e *Env, le Expr, cl *Clause) (out []Loc) {
 				p := e.eval(v.Args[0])
 				pr, ok := p.V.(*PRef)
 				if !ok {
-					sfail("atomic() needs a struct field")
+					if t, isTerm := p.V.(Term); isTerm {
+						res = append(res, mk("AT!", ArrSort(SI, SI), t))
+						break
+					}
+					sfail("atomic() needs a struct field or a pointer to an atomic value")
 				}
 				res = append(res, mk("AT!"+typeName(pr.Root)+"!"+fieldNameAt(pr.Root, pr.Path), ArrSort(SI, SI), pr.Ref))
 			case "mutex":
@@ -598,6 +602,22 @@ func (x *Exec) evalLoc(e *Env, le Expr, cl *Clause) (out []Loc) {
 				wm := e.oldWM
 				for _, lf := range leaves(t) {
 					res = append(res, Loc{comp: fieldComp(t, lf.path), sort: ArrSort(SI, sortOf(lf.typ)), above: &wm})
+				}
+			case "fieldof":
+				// fieldof(T, f): field f of every object of struct type T (the whole heap component)
+				t := e.resolveType(exprKey(v.Args[0]))
+				if !isStruct(t) {
+					sfail("fieldof() needs a struct type")
+				}
+				found := false
+				for _, lf := range leaves(t) {
+					if fieldNameAt(t, lf.path) == exprKey(v.Args[1]) {
+						res = append(res, Loc{comp: fieldComp(t, lf.path), sort: ArrSort(SI, sortOf(lf.typ))})
+						found = true
+					}
+				}
+				if !found {
+					sfail("fieldof(): no field %s", exprKey(v.Args[1]))
 				}
 			case "cell":
 				p := e.eval(v.Args[0])
